@@ -506,6 +506,7 @@ def meson_lib(config, dirty=False, sanitize=None, variant=None):
         _run(['meson', 'compile', '-C', b, 'xrl'], timeout=3600, env=benv)
         if not os.path.exists(os.path.join(b, 'src', 'libxrl.a' if variant == 'static' else 'libxrl.so')):
             raise BuildError('meson did not produce src/libxrl.%s' % ('a' if variant == 'static' else 'so'))
+        shutil.rmtree(src, ignore_errors=True)          # the copy of the tree (70 MB) is not needed once the library exists
     d = _target('lib-%s-meson%s%s%s' % (config, ('-dirty' if dirty is True else '-' + dirty) if dirty else '', '-' + sanitize if sanitize else '', '-' + variant if variant else ''), mk)
     return dict(dir=os.path.join(d, 'b', 'src'), so=os.path.join(d, 'b', 'src', 'libxrl.so'), a=os.path.join(d, 'b', 'src', 'libxrl.a'), cfgdir=os.path.join(d, 'b'))
 
